@@ -49,9 +49,14 @@ var ErrInjected = errors.New("simio: injected stream failure")
 
 // BudgetExceeded is the panic value raised when a reader keeps polling a dead
 // stream: the deterministic stand-in for "blocks forever".
+//
+// It deliberately does not implement error: the BED and GFF readers recover
+// panics whose value is an error and return them as ordinary errors, which
+// would turn a spinning reader into one that "reported an error". The Source
+// also latches Spun, which the harness checks after every call.
 type BudgetExceeded struct{ Polls int }
 
-func (b BudgetExceeded) Error() string {
+func (b BudgetExceeded) String() string {
 	return fmt.Sprintf("simio: reader polled an exhausted stream %d more times (spinning)", b.Polls)
 }
 
@@ -71,6 +76,7 @@ type Source struct {
 	PollsAfter int // calls after the terminal condition was delivered
 	Budget     int
 	MaxPolls   int // high-water mark of PollsAfter within one client call
+	Spun       bool // the budget was exceeded at least once
 }
 
 func NewSource(data []byte, d Delivery) *Source {
@@ -138,6 +144,7 @@ func (s *Source) Read(p []byte) (int, error) {
 			s.MaxPolls = s.PollsAfter
 		}
 		if s.PollsAfter > s.Budget {
+			s.Spun = true
 			panic(BudgetExceeded{s.PollsAfter})
 		}
 		return 0, s.ended
